@@ -58,6 +58,18 @@ impl<T> Clone for List<T> {
     }
 }
 
+impl<T> Drop for List<T> {
+    /// Releases the nodes iteratively. The compiler generated drop glue would recurse once per node
+    /// and overflow the stack when a long list is released.
+    fn drop(&mut self) {
+        let mut link = self.head.take();
+        while let Some(node) = link {
+            // Stops at the first node which is still shared with another list.
+            link = Arc::into_inner(node).and_then(|mut node| node.next.take());
+        }
+    }
+}
+
 pub struct Iter<'a, T> {
     next: Option<&'a Node<T>>,
 }
